@@ -569,14 +569,18 @@ void watchdog_start(const WatchdogCfg& cfg, HangFn on_hang_user) {
 
 std::string stacks_dump(int frames, size_t max_bytes) {
     if (VRT_TSAN) return "(no gdb stacks in the tsan variant)";
-    char cmd[256];
-    snprintf(cmd, sizeof cmd, "timeout 40 gdb -p %d -batch -nx -ex 'set print frame-arguments none' -ex 'thread apply all bt %d' 2>/dev/null", (int)getpid(), frames);
+    char cmd[600];
+    std::string script = __FILE__; { size_t sl = script.rfind('/'); script = (sl == std::string::npos ? std::string(".") : script.substr(0, sl)) + "/gdb_arena.py"; }
+    snprintf(cmd, sizeof cmd, "timeout 60 gdb -p %d -batch -nx -ex 'set print frame-arguments none' -ex 'thread apply all bt %d' -ex 'source %s' 2>/dev/null", (int)getpid(), frames, script.c_str());
     FILE* f = popen(cmd, "r"); if (!f) return "(gdb not available)";
     // one block of frames per thread; threads with identical back-traces are grouped, rare traces first
     std::vector<std::pair<std::string, std::string>> blocks;   // (thread header, frames)
-    std::string line; char buf[1024];
+    std::string line, arenas; char buf[1024]; bool in_arenas = false;
     while (fgets(buf, sizeof buf, f)) {
         line = buf;
+        if (line.compare(0, 16, "ARENA-DUMP-BEGIN") == 0) { in_arenas = true; continue; }
+        if (line.compare(0, 14, "ARENA-DUMP-END") == 0) { in_arenas = false; continue; }
+        if (in_arenas) { if (arenas.size() < 6000) arenas += (line.size() > 400 ? line.substr(0, 400) + "\n" : line); continue; }
         if (line.compare(0, 7, "Thread ") == 0) { size_t l = line.find("(LWP "); std::string h = l == std::string::npos ? line : line.substr(l + 1, line.find(')', l) - l - 1); blocks.push_back({ h, "" }); }
         else if (line[0] == '#' && !blocks.empty()) {
             size_t in = line.find(" in "); if (in != std::string::npos && in < 24) line = line.substr(0, line.find(' ')) + " " + line.substr(in + 4);
@@ -599,6 +603,7 @@ std::string stacks_dump(int frames, size_t max_bytes) {
         out += "]:\n" + o.second;
         if (out.size() > max_bytes) { out = out.substr(0, max_bytes) + "..."; break; }
     }
+    if (!arenas.empty()) out += "scheduler state of the arenas reachable from these frames (vrt/gdb_arena.py):\n" + arenas;
     return out.empty() ? "(gdb produced no back-trace)" : out;
 }
 
